@@ -60,6 +60,9 @@ CHECKS = {
     'C12': dict(
         technique='static analysis: type-level size table against RFC 9180 Table 2/5, guard-dominance on MIR for every from_bytes/write_exact impl, decision tables of the two length helpers',
         text='Static analysis: RFC sizes Npk/Nsk/Nenc/Ndh/Nt at type level for every Serializable impl; every from_bytes starts with the exact-length guard (expected = Self::OutputSize, given = len) dominating all other uses of the input, or delegates the whole input; every write_exact has a mechanism that panics exactly on a length mismatch before any partial write; helper decision tables; NIST keys are encoded uncompressed. The round-trip/canonicity clause (from_bytes(to_bytes(x)) == x) is numerical inside the dependency encoders and is not decided.'),
+    'C13': dict(
+        technique='static analysis: panic-site enumeration over the call-graph closure (CHA) of all exported/reachable functions on MIR; per-site discharge by structural rules (type-level lengths over all impls, guard dominance, concat-capacity arithmetic) or a frozen reasoned table; inter-procedural error-set analysis',
+        text='Static analysis: every panic-capable MIR site (Assert terminators, unwrap/expect, slice indexing, copy_from_slice, split_at, array conversions, explicit panics, allocation) reachable from any exported or externally reachable function is enumerated; every other external callee must be in a reasoned panic-free table (fail closed); each site is discharged by one of nine structural rules quantifying over all Aead/Kdf/Kem impls, or is one of the frozen entries (write_exact\'s documented contract on the caller\'s own buffer, DeriveKeyPair exhaustion, export-only AEAD, allocation). Sender setup error set = {EncapError}, receiver = {DecapError}. Dependency crates are assumed panic-free for the calls used.'),
     'C14': dict(
         technique='static analysis: pass-through proof on MIR provenance terms (argument i -> parameter j, error identity, result identity), writer-sequence recognition for the allocating forms',
         text='Static analysis proving each single_shot_* body is exactly setup_* followed by one context-method call on the fresh context with its own parameters in order, errors and results unchanged, and that seal/open wrap the in-place forms (copy, in-place call on buf[..len], tag at [len..len+Nt) / split at len-Nt). Equivalence with the composed calls then holds for all inputs given the composed functions are functions of their arguments (C18).'),
